@@ -51,6 +51,16 @@ def ev(t: Sym, env: Dict[Any, Any]) -> Any:
         d = dotted(t)
         if d in _ATTRS:
             return _ATTRS[d]
+        # the normalised fields of a timedelta / the fields of a datetime given by the scenario
+        import datetime as _dt
+        try:
+            base = ev(t[1], env)
+        except Unknown:
+            raise Unknown(d)
+        if isinstance(base, _dt.timedelta) and t[2] in ("days", "seconds", "microseconds"):
+            return getattr(base, t[2])
+        if isinstance(base, _dt.datetime) and t[2] in ("year", "month", "day", "hour", "minute", "second", "microsecond", "tzinfo"):
+            return getattr(base, t[2])
         raise Unknown(d)
     if k == "ife":
         return ev(t[2], env) if ev(t[1], env) else ev(t[3], env)
@@ -199,6 +209,14 @@ def ev(t: Sym, env: Dict[Any, Any]) -> Any:
                 recv = None
             if isinstance(recv, (int, float)) and not isinstance(recv, bool) and hasattr(recv, t[1][2]):
                 return getattr(recv, t[1][2])()
+        if t[1][0] == "a" and t[1][2] == "total_seconds" and not t[2] and not t[3]:
+            import datetime as _dt
+            try:
+                recv = ev(t[1][1], env)
+            except Unknown:
+                recv = None
+            if isinstance(recv, _dt.timedelta):
+                return recv.total_seconds()
         if name in ("timedelta", "datetime.timedelta"):
             import datetime as _dt
             try:
